@@ -631,26 +631,30 @@ func runC20Err(c *Ctx) {
 			continue
 		}
 		construct := FuncName(fn) + "|tool failure becomes an error"
-		good := false
-		for _, b := range fn.Blocks {
-			v, nilSucc, ok := nilTest(b.Instrs[len(b.Instrs)-1])
-			if !ok || v != fn.Params[1] {
-				continue
-			}
-			nn := b.Succs[1-nilSucc]
-			all := true
-			n := 0
-			for blk := range reachableBlocks([]*ssa.BasicBlock{nn}, nil) {
-				if ret, ok := blk.Instrs[len(blk.Instrs)-1].(*ssa.Return); ok && (nn == blk || nn.Dominates(blk)) {
-					n++
-					if isNilConst(ret.Results[len(ret.Results)-1]) {
-						all = false
+		good := nonNilErrReturned(fn, fn.Params[1])
+		if !good {
+			// the callback only forwards to a function of the module and returns what that returns
+			eachInstr(fn, func(_ *ssa.BasicBlock, _ int, in ssa.Instruction) {
+				call, ok := in.(*ssa.Call)
+				if !ok {
+					return
+				}
+				g := staticCallee(&call.Call)
+				if g == nil || !inModule(g) || g.Blocks == nil {
+					return
+				}
+				returned := false
+				for _, ref := range *call.Referrers() {
+					if _, isRet := ref.(*ssa.Return); isRet {
+						returned = true
 					}
 				}
-			}
-			if all && n > 0 {
-				good = true
-			}
+				for k, a := range call.Call.Args {
+					if a == ssa.Value(fn.Params[1]) && returned && k < len(g.Params) && nonNilErrReturned(g, g.Params[k]) {
+						good = true
+					}
+				}
+			})
 		}
 		if good {
 			c.ok(construct, fn.Pos(), "the branch for a non-nil tool error returns a non-nil error")
@@ -794,3 +798,29 @@ func reachesRun(p *Prog, g *ssa.Function) bool {
 
 var _ = token.NoPos
 var _ types.Type
+
+// nonNilErrReturned: the function tests the error parameter against nil and every return on the non-nil side hands back
+// a non-nil error.
+func nonNilErrReturned(fn *ssa.Function, errParam *ssa.Parameter) bool {
+	for _, b := range fn.Blocks {
+		v, nilSucc, ok := nilTest(b.Instrs[len(b.Instrs)-1])
+		if !ok || v != ssa.Value(errParam) {
+			continue
+		}
+		nn := b.Succs[1-nilSucc]
+		all := true
+		n := 0
+		for blk := range reachableBlocks([]*ssa.BasicBlock{nn}, nil) {
+			if ret, ok := blk.Instrs[len(blk.Instrs)-1].(*ssa.Return); ok && (nn == blk || nn.Dominates(blk)) {
+				n++
+				if isNilConst(ret.Results[len(ret.Results)-1]) {
+					all = false
+				}
+			}
+		}
+		if all && n > 0 {
+			return true
+		}
+	}
+	return false
+}
